@@ -17,25 +17,25 @@ Open Scope Z_scope.
 
 (* ---------- sub-multisets of ids ---------- *)
 Definition cnt (l : list Z) (x : Z) : nat := count_occ Z.eq_dec l x.
-Definition sub (l l' : list Z) : Prop := forall x, (cnt l x <= cnt l' x)%nat.
+Definition msub (l l' : list Z) : Prop := forall x, (cnt l x <= cnt l' x)%nat.
 
 Lemma cnt_app a b x : cnt (a ++ b) x = (cnt a x + cnt b x)%nat.
 Proof. apply count_occ_app. Qed.
 Lemma cnt_nil x : cnt [] x = 0%nat. Proof. reflexivity. Qed.
 
 Ltac subs :=
-  unfold sub in *; let x := fresh "x" in intros x;
+  unfold msub in *; let x := fresh "x" in intros x;
   repeat match goal with H : forall y : Z, (_ <= _)%nat |- _ => specialize (H x) end;
   repeat rewrite ?cnt_app, ?cnt_nil in *; try lia.
 
-Lemma sub_refl l : sub l l. Proof. subs. Qed.
-Lemma sub_trans a b c : sub a b -> sub b c -> sub a c. Proof. intros H1 H2. subs. Qed.
-Lemma sub_NoDup l l' : sub l l' -> NoDup l' -> NoDup l.
+Lemma sub_refl l : msub l l. Proof. subs. Qed.
+Lemma sub_trans a b c : msub a b -> msub b c -> msub a c. Proof. intros H1 H2. subs. Qed.
+Lemma sub_NoDup l l' : msub l l' -> NoDup l' -> NoDup l.
 Proof.
   intros H N. apply (NoDup_count_occ Z.eq_dec). intros x.
   rewrite (NoDup_count_occ Z.eq_dec) in N. specialize (H x). specialize (N x). unfold cnt in H. lia.
 Qed.
-Lemma sub_In l l' x : sub l l' -> In x l -> In x l'.
+Lemma sub_In l l' x : msub l l' -> In x l -> In x l'.
 Proof.
   intros H Hin. apply (count_occ_In Z.eq_dec). apply (count_occ_In Z.eq_dec) in Hin.
   specialize (H x). unfold cnt in H. lia.
@@ -108,12 +108,12 @@ Section DV.
 
   Lemma dv_cons k v d : dv ((k, v) :: d) = f v ++ dv d. Proof. reflexivity. Qed.
 
-  Lemma dv_ddel k d : sub (dv (ddel k d)) (dv d).
+  Lemma dv_ddel k d : msub (dv (ddel k d)) (dv d).
   Proof.
     induction d as [|[k' v] d IH]; [apply sub_refl|]. unfold ddel in *. cbn [filter fst].
     destruct (negb (k' =? k)); rewrite ?dv_cons; subs.
   Qed.
-  Lemma dv_get_del k d v : dget k d = Some v -> sub (f v ++ dv (ddel k d)) (dv d).
+  Lemma dv_get_del k d v : dget k d = Some v -> msub (f v ++ dv (ddel k d)) (dv d).
   Proof.
     induction d as [|[k' v'] d IH]; [discriminate|]. cbn [dget]. unfold ddel in *. cbn [filter fst].
     destruct (k =? k') eqn:E.
@@ -121,7 +121,7 @@ Section DV.
       pose proof (dv_ddel k d) as H. unfold ddel in H. subs.
     - intros H. specialize (IH H). assert (k' =? k = false) as -> by lia. cbn [negb]. rewrite !dv_cons. subs.
   Qed.
-  Lemma dv_dset k v d : sub (dv (dset k v d)) (f v ++ dv d).
+  Lemma dv_dset k v d : msub (dv (dset k v d)) (f v ++ dv d).
   Proof.
     induction d as [|[k' v'] d IH]; cbn [dset]; [rewrite dv_cons; subs|].
     destruct (k =? k'); rewrite !dv_cons; subs.
@@ -232,7 +232,7 @@ Qed.
 
 (* ---------- silent steps: nothing added, nothing reported ---------- *)
 Record Shrink (X : list cb) (v : view) (X' : list cb) (v' : view) : Prop := {
-  sh_plain : sub (plain X' v') (plain X v);
+  sh_plain : msub (plain X' v') (plain X v);
   sh_all : incl (allcb X' v') (allcb X v);
   sh_prm : pids (mcbs (map snd (v_prm v'))) = [];
   sh_out : Forall mok (v_out v');
@@ -308,7 +308,7 @@ Lemma St_frag X v fid fs id b : dget fid (v_pf v) = Some fs -> fs_ucb fs = IUser
   St [] X v X (v_set_pf v (ddel fid (v_pf v))) [OCallback id b].
 Proof.
   intros Hg Hu. apply St_fire. intros [N P O R U].
-  assert (Hs : sub ([id] ++ fids (ddel fid (v_pf v))) (fids (v_pf v))).
+  assert (Hs : msub ([id] ++ fids (ddel fid (v_pf v))) (fids (v_pf v))).
   { pose proof (dv_get_del (fun fs => uid (fs_ucb fs)) _ _ _ Hg) as Hs. cbn beta in Hs. rewrite Hu in Hs. exact Hs. }
   split; [|split].
   - constructor; cbn; auto; try lia; [|apply incl_refl]. unfold plain. cbn [v_set_pf v_out v_pf]. subs.
@@ -343,7 +343,7 @@ Proof.
   intros Hf. apply St_shrink; [exact Hf|]. intros [N P O R U]. constructor; auto; try lia; [apply sub_refl|apply incl_refl].
 Qed.
 
-Lemma Shrink_pf X v pf' : sub (fids pf') (fids (v_pf v)) -> Inv X v -> Shrink X v X (v_set_pf v pf').
+Lemma Shrink_pf X v pf' : msub (fids pf') (fids (v_pf v)) -> Inv X v -> Shrink X v X (v_set_pf v pf').
 Proof.
   intros Hs [N P O R U]. constructor; cbn; auto; try lia; [|apply incl_refl].
   unfold plain. cbn [v_set_pf v_out v_pf]. subs.
@@ -512,7 +512,7 @@ Qed.
 
 (* ---------- growing: the application hands over a callback ---------- *)
 Lemma St_grow_plain ids X v X' v' :
-  sub (plain X' v') (plain X v ++ ids) -> incl (rps (allcb X' v')) (rps (allcb X v)) ->
+  msub (plain X' v') (plain X v ++ ids) -> incl (rps (allcb X' v')) (rps (allcb X v)) ->
   (Inv X v -> pids (mcbs (map snd (v_prm v'))) = [] /\ Forall mok (v_out v')) ->
   v_rid v <= v_rid v' -> (forall r, zmem r (v_done v) = true -> zmem r (v_done v') = true) ->
   St ids X v X' v' [].
@@ -537,7 +537,7 @@ Proof.
 Qed.
 
 Lemma St_grow_retry id X v X' v' :
-  sub (plain X' v') (plain X v) ->
+  msub (plain X' v') (plain X v) ->
   (forall pr, In pr (rps (allcb X' v')) -> In pr (rps (allcb X v)) \/ pr = (v_rid v, id)) ->
   (Inv X v -> pids (mcbs (map snd (v_prm v'))) = [] /\ Forall mok (v_out v')) ->
   v_rid v < v_rid v' -> (forall r, zmem r (v_done v) = true -> zmem r (v_done v') = true) ->
@@ -657,7 +657,7 @@ Proof.
       change v' with (v_set_pf (vw c2) (dset (seq_succ (c_seq_frag c)) {| fs_ucb := k; fs_acks := repeat None (length frags) |} (c_pfrags c2))) end.
     apply St_grow_plain.
     + unfold plain. cbn [v_set_pf v_out v_pf vw].
-      assert (Hs : sub (fids (dset (seq_succ (c_seq_frag c)) {| fs_ucb := k; fs_acks := repeat None (length frags) |} (c_pfrags c2)))
+      assert (Hs : msub (fids (dset (seq_succ (c_seq_frag c)) {| fs_ucb := k; fs_acks := repeat None (length frags) |} (c_pfrags c2)))
                        (uid k ++ fids (c_pfrags c2)))
         by exact (dv_dset (fun fs => uid (fs_ucb fs)) _ _ _).
       subs.
@@ -751,7 +751,7 @@ Proof. induction q as [|m q IH]; [reflexivity|]. change (mcbs (m :: q)) with (ol
 
 Lemma out_pass_cnt e q : forall msgs cur rem msgs' cur',
   out_pass e q msgs cur = (rem, msgs', cur') ->
-  exists taken, msgs' = msgs ++ taken /\ sub (flat_map mpl rem ++ flat_map mpl taken) (flat_map mpl q) /\
+  exists taken, msgs' = msgs ++ taken /\ msub (flat_map mpl rem ++ flat_map mpl taken) (flat_map mpl q) /\
                 incl rem q /\ incl taken q.
 Proof.
   induction q as [|m q IH]; intros msgs cur rem msgs' cur' E; cbn [out_pass] in E.
@@ -799,7 +799,7 @@ Proof.
   assert (Hp0 : pids (mcbs msgs0) = []) by exact (pids_nil_incl _ _ (mcbs_incl _ _ Hm0) P).
   assert (Orem : Forall mok rem).
   { rewrite Forall_forall in *. intros m Hm. apply O. apply Irem. exact Hm. }
-  assert (Hpl : sub (pids (mcbs rem) ++ pids (mcbs (msgs0 ++ tk))) (pids (mcbs (c_outgoing c)))).
+  assert (Hpl : msub (pids (mcbs rem) ++ pids (mcbs (msgs0 ++ tk))) (pids (mcbs (c_outgoing c)))).
   { rewrite mcbs_app, pids_app, Hp0, !pids_mcbs. subs. }
   match type of E with (if ?b then _ else _) = _ => destruct b eqn:Hty end.
   - (* nothing assembled *)
@@ -816,7 +816,7 @@ Proof.
     set (retr := filter (fun m => negb (retry_is_none (m_retry m))) (map (stamp now) (msgs0 ++ tk))).
     set (prm' := fold_left (fun d m => dset (m_seq m) m d) retr prm).
     set (pcbs' := match mcbs (msgs0 ++ tk) with [] => c_pcbs c | _ => dset s (mcbs (msgs0 ++ tk)) (c_pcbs c) end).
-    assert (Hpc : sub (pids (flat_map snd pcbs')) (pids (mcbs (msgs0 ++ tk)) ++ pids (flat_map snd (c_pcbs c))) /\
+    assert (Hpc : msub (pids (flat_map snd pcbs')) (pids (mcbs (msgs0 ++ tk)) ++ pids (flat_map snd (c_pcbs c))) /\
                   incl (flat_map snd pcbs') (mcbs (msgs0 ++ tk) ++ flat_map snd (c_pcbs c))).
     { subst pcbs'. destruct (mcbs (msgs0 ++ tk)) as [|k0 ks] eqn:Ek.
       - split; [cbn; apply sub_refl|apply incl_refl].
@@ -958,3 +958,51 @@ Theorem callback_at_most_once e xs c c' oss : CbInv c -> Forall (ev_ok e) xs -> 
   (forall id, In id (sent_ids xs) -> ~ CbKnown c id) -> run e c xs = (c', oss) ->
   NoDup (fired (concat oss)).
 Proof. intros HI Hok ND Fr E. exact (proj1 (proj2 (run_Sc e xs c c' oss Hok E HI ND Fr))). Qed.
+
+Theorem run_CbKnown e xs c c' oss id : CbInv c -> Forall (ev_ok e) xs -> NoDup (sent_ids xs) ->
+  (forall id, In id (sent_ids xs) -> ~ CbKnown c id) -> run e c xs = (c', oss) ->
+  CbKnown c' id -> CbKnown c id \/ In id (sent_ids xs).
+Proof. intros HI Hok ND Fr E. exact (proj2 (proj2 (proj2 (proj2 (run_Sc e xs c c' oss Hok E HI ND Fr)))) id). Qed.
+
+(* only ids the connection knows or the application hands over are ever reported *)
+Theorem run_fired_known e xs c c' oss id : CbInv c -> Forall (ev_ok e) xs -> NoDup (sent_ids xs) ->
+  (forall id, In id (sent_ids xs) -> ~ CbKnown c id) -> run e c xs = (c', oss) ->
+  In id (fired (concat oss)) -> CbKnown c id \/ In id (sent_ids xs).
+Proof.
+  intros HI Hok ND Fr E H.
+  destruct (proj1 (proj2 (proj2 (run_Sc e xs c c' oss Hok E HI ND Fr))) id H) as [H'|H']; [left; apply Live_Known; exact H'|right; exact H'].
+Qed.
+
+Theorem callback_at_most_once_fresh e b xs c' oss : Forall (ev_ok e) xs -> NoDup (sent_ids xs) ->
+  run e (conn0 b) xs = (c', oss) -> NoDup (fired (concat oss)).
+Proof.
+  intros Hok ND E. apply (callback_at_most_once e xs (conn0 b) c' oss); auto using CbInv_conn0.
+  intros id _. apply CbKnown_conn0.
+Qed.
+
+Lemma cbinv_fresh b : CbInv (conn0 b) /\ forall id, ~ CbKnown (conn0 b) id.
+Proof. split; [apply CbInv_conn0|intros id; apply CbKnown_conn0]. Qed.
+
+Theorem cbinv_preserved e xs c c' oss :
+  CbInv c -> Forall (ev_ok e) xs -> NoDup (sent_ids xs) ->
+  (forall id, In id (sent_ids xs) -> ~ CbKnown c id) ->
+  run e c xs = (c', oss) ->
+  CbInv c' /\ (forall id, CbKnown c' id -> CbKnown c id \/ In id (sent_ids xs)) /\
+  (forall id, In id (fired (concat oss)) -> CbKnown c id \/ In id (sent_ids xs)).
+Proof.
+  intros HI Hok ND Fr E. split; [exact (run_CbInv e xs c c' oss HI Hok ND Fr E)|]. split.
+  - intros id. exact (run_CbKnown e xs c c' oss id HI Hok ND Fr E).
+  - intros id. exact (run_fired_known e xs c c' oss id HI Hok ND Fr E).
+Qed.
+
+Lemma cbinv_meaning c : CbInv c <->
+  NoDup (pids (pend c) ++ pids (mcbs (c_outgoing c)) ++ fids (c_pfrags c)) /\
+  pids (mcbs (map snd (c_pretry_msg c))) = [] /\
+  Forall mok (c_outgoing c) /\
+  (forall rid id, In (rid, id) (rps (pend c ++ mcbs (c_outgoing c) ++ mcbs (map snd (c_pretry_msg c)))) ->
+     rid < c_next_rid c /\ ~ In id (pids (pend c) ++ pids (mcbs (c_outgoing c)) ++ fids (c_pfrags c))) /\
+  (forall rid id rid' id',
+     In (rid, id) (rps (pend c ++ mcbs (c_outgoing c) ++ mcbs (map snd (c_pretry_msg c)))) ->
+     In (rid', id') (rps (pend c ++ mcbs (c_outgoing c) ++ mcbs (map snd (c_pretry_msg c)))) ->
+     (rid = rid' <-> id = id')).
+Proof. split; [intros [A B C D E]; auto|intros (A & B & C & D & E); constructor; assumption]. Qed.
